@@ -179,7 +179,14 @@ def rendezvous(ctx, n, k, state, then, ping, empties=False, producer="generator"
             if k >= 0:
                 want = min(k, n)
                 while len([g for g in got if b"id: " in g]) < want:
-                    got.append(next(it))
+                    try:
+                        got.append(next(it))
+                    except StopIteration:
+                        if k <= n:
+                            raise  # the stream ended although the producer still has events and nobody closed it
+                        break  # (read-to-the-end scenarios: completeness is judged below)
+                    if state == "slow-client":
+                        time.sleep(ping * 3.5)  # the client takes several ping intervals to take each chunk
                 if k > n:
                     for c in it:
                         got.append(c)
